@@ -49,7 +49,13 @@ def run_case(case):
         o = dict(step["options"])
         want = (o["A"], o.get("B", 0)) if "A" in o else "err"
         before = dict(calls)
-        cache_off = step.get("ctx") == "cache" or o.get("LABREA", {}).get("CACHE", {}).get("DISABLED") or o.get("LABREA", {}).get("CACHE", {}).get("DISABLE")
+        from confectioner.templating import resolve as _resolve
+        try:
+            flags = _resolve(o.get("LABREA", {}), o)       # a switch may be given as a template of another option: its RESOLVED value counts
+        except Exception:  # noqa
+            flags = {}
+        cache_off = step.get("ctx") == "cache" or flags.get("CACHE", {}).get("DISABLED") or flags.get("CACHE", {}).get("DISABLE")
+        log_off = bool(flags.get("LOGGING", {}).get("DISABLED")) or step.get("ctx") == "logging"
         try:
             if step.get("ctx") == "cache":
                 with lc.disabled():
@@ -61,6 +67,17 @@ def run_case(case):
         if cache_off and calls["backend"] != before["backend"]:
             out.append(f"caching disabled for {o} (ctx={step.get('ctx')}) but validate() reached the cache backend")
         before = dict(calls)
+        import logging as _pl0
+        recs0 = []
+
+        class H0(_pl0.Handler):
+            def emit(self, r):
+                recs0.append(r)
+        h0 = H0()
+        lg0 = _pl0.getLogger()
+        old0 = lg0.level
+        lg0.addHandler(h0)
+        lg0.setLevel(_pl0.DEBUG)
         try:
             if step.get("ctx") == "cache":
                 with lc.disabled():
@@ -72,13 +89,19 @@ def run_case(case):
                 got = d(o)
         except Exception as e:  # noqa
             got = "err"
+        finally:
+            lg0.removeHandler(h0)
+            lg0.setLevel(old0)
+        ran = calls["body"] - before["body"]
+        if "A" in o and len(recs0) != (0 if log_off else ran):
+            out.append(f"evaluation of {o} (ctx={step.get('ctx')}): body ran {ran} time(s), logging {'off' if log_off else 'on'}, but {len(recs0)} log record(s) were emitted")
         if got != want:
             out.append(f"evaluation of {o} (ctx={step.get('ctx')}) returned {got!r}, expected {want!r}")
         if cache_off and calls["backend"] != before["backend"]:
             out.append(f"caching disabled for {o} (ctx={step.get('ctx')}) but evaluate() reached the cache backend")
         if cache_off and "A" in o and calls["body"] != before["body"] + 1:
             out.append(f"caching disabled for {o} but the body did not run")
-        eff_off = o.get("LABREA", {}).get("EFFECTS", {}).get("DISABLED")
+        eff_off = flags.get("EFFECTS", {}).get("DISABLED")
         if eff_off and calls["effect"] != before["effect"]:
             out.append(f"effects disabled for {o} but an effect ran")
         if step.get("ctx") == "cache":
@@ -197,7 +220,8 @@ def search(seed=0, faulty=True, switches=False, budget=400, memo=False):
     rnd = random.Random(seed)
     faults = ["behave", "miss", "forget", "lie-exists", "fail-get"] if faulty else ["behave"]
     flags = [{}, {"LABREA": {"CACHE": {"DISABLED": True}}}, {"LABREA": {"CACHE": {"DISABLE": True}}}, {"LABREA": {"EFFECTS": {"DISABLED": True}}},
-             {"LABREA": {"LOGGING": {"DISABLED": True}}}] if switches else [{}]
+             {"LABREA": {"LOGGING": {"DISABLED": True}}}, {"LABREA": {"LOGGING": {"DISABLED": "{QUIET}"}}, "QUIET": False}, {"LABREA": {"CACHE": {"DISABLED": "{NOCACHE}"}}, "NOCACHE": 0},
+             {"LABREA": {"EFFECTS": {"DISABLED": "{NOEFF}"}}, "NOEFF": False}, {"LABREA": {"LOGGING": {"DISABLED": "{QUIET}"}}, "QUIET": True}] if switches else [{}]
     ctxs = [None, "cache", "logging"] if switches else [None]
     for _ in range(budget):
         hist = []
